@@ -450,6 +450,12 @@ def run_kind_case(r, variants, cache, log_call, out, detail=False):
                     mach = "%s callable did not raise the witness: %s" % (tk, describe(u))
             elif not isinstance(u["exc"], TypeError) or u["exc"] is X or u["calls"]:
                 mach = "spec says the %s callable raises TypeError when it calls the function, Python: %s" % (tk, describe(u))
+        if mach and tk == "stacked":
+            # the callable underneath is itself made by the log_call under test: its deviation is eliot's, not the machinery's
+            # (the same signature / call / options as target kind "plain" reports the clause)
+            results.append(("violation", ["stacked: the log_call'ed function underneath does not behave as the function"],
+                            {"variant": v, "decorated": describe(u), "plain": None, "detail": mach}))
+            continue
         if mach:
             results.append(("machinery", [mach], {"variant": v}))
             continue
